@@ -764,7 +764,7 @@ func main() {
 	r.Assumptions = []string{"panics caused by the caller's nil interface / nil pointer arguments to plugin methods are caller errors and not generated; in-process mocks returning (nil, nil) are not plugin output and not generated",
 		"inputs are <= 4 MiB; the resource monitor aborts a child whose RSS exceeds 1 GiB; a case running longer than 120 s is a hang"}
 	scratch := lib.TempDir("c12")
-	defer os.RemoveAll(scratch)
+	r.OnExit(func() { os.RemoveAll(scratch) })
 	batches := r.N(16, 64)
 	exe, _ := os.Executable()
 	type done struct {
